@@ -852,8 +852,44 @@ func runFINDOPTS(c *Ctx) {
 
 // ---- DIRTYNEW -----------------------------------------------------------------------------------------
 
+// valueHasDirtyTrue: a mastNode *value* whose dirty field is true: a composite
+// literal, or the result of a function all of whose returns are such values.
+func valueHasDirtyTrue(v ssa.Value, depth int) bool {
+	if depth > 3 {
+		return false
+	}
+	if lit := literalFields(v); lit != nil {
+		d, ok := lit["dirty"]
+		if !ok {
+			return false
+		}
+		b, isC := ir.ConstBool(d)
+		return isC && b
+	}
+	if call, ok := v.(*ssa.Call); ok {
+		f := call.Call.StaticCallee()
+		if f == nil || f.Blocks == nil {
+			return false
+		}
+		rets := ir.Returns(f)
+		if len(rets) == 0 {
+			return false
+		}
+		for _, r := range rets {
+			if len(r.Results) != 1 || !valueHasDirtyTrue(r.Results[0], depth+1) {
+				return false
+			}
+		}
+		return true
+	}
+	return false
+}
+
 func dirtyTrueStoreOn(x ssa.Value) func(ssa.Instruction) bool {
 	return func(i ssa.Instruction) bool {
+		if st, ok := i.(*ssa.Store); ok && isNodePtr(st.Addr.Type()) && sameBase(st.Addr, x) && valueHasDirtyTrue(st.Val, 0) {
+			return true
+		}
 		b, f, st, ok := flagStore(i)
 		if !ok || f != "dirty" || !sameBase(b, x) {
 			return false
